@@ -32,6 +32,8 @@ type c07History struct {
 	Envs   []*core.EnvSpec `json:"envs"`
 	Budget int             `json:"budget"`
 	Steps  [][2]int        `json:"steps"`
+	// Budgets[i], when present and > 0, is the memory budget in force from step i on (it may change between runs)
+	Budgets []int `json:"budgets,omitempty"`
 }
 
 func vmRun(m *vm.VM, p *vm.Program, env interface{}) (out interface{}, err error) {
@@ -77,6 +79,9 @@ func judgeC07(c *core.Case, cfg *core.Config) core.Verdict {
 			continue
 		}
 		p, spec := progs[st[0]], h.Envs[st[1]]
+		if si < len(h.Budgets) && h.Budgets[si] > 0 {
+			vm.MemoryBudget = h.Budgets[si]
+		}
 		var logR, logF []string
 		gotR, errR := vmRun(machine, p, spec.Build(&logR))
 		gotF, errF := vmRun(nil, p, spec.Build(&logF))
@@ -142,6 +147,12 @@ func judgeC07(c *core.Case, cfg *core.Config) core.Verdict {
 	if nFail > 0 {
 		v.Classes = append(v.Classes, "has-failing-run")
 	}
+	for _, b := range h.Budgets {
+		if b > 0 {
+			v.Classes = append(v.Classes, "budget-changes-between-runs")
+			break
+		}
+	}
 	if cumulative >= h.Budget {
 		v.Classes = append(v.Classes, fmt.Sprintf("cumulative-allocation-crosses-budget-x%d", bucket(cumulative/h.Budget)))
 	}
@@ -171,6 +182,8 @@ var c07Alloc = []string{
 	`len(0..-1) + len(50..1) + len(1..45)`,
 	`map(1..150, {#})`,
 	`len(1..99)`,
+	`len(filter(1..3000, {# > 0}))`, // holds more than 1024 values on the evaluation stack
+	`len(map(1..1500, {#}))`,
 }
 
 // elements created by one successful run of each allocating program (for the coverage histogram only)
@@ -211,14 +224,20 @@ func genC07(t *rapid.T, cfg *core.Config) *core.Case {
 		}
 		h.Progs = append(h.Progs, c07Prog{Src: src, Opt: rapid.Bool().Draw(t, "opt")})
 	}
-	h.Budget = rapid.SampledFrom([]int{200, 200, 500, 1000000}).Draw(t, "budget")
+	h.Budget = rapid.SampledFrom([]int{200, 200, 500, 8000, 1000000}).Draw(t, "budget")
 	maxSteps := 40
 	if cfg.Thorough() {
 		maxSteps = 400
 	}
 	n := rapid.IntRange(2, maxSteps).Draw(t, "nsteps")
+	changing := rapid.IntRange(0, 2).Draw(t, "changing") == 0
 	for i := 0; i < n; i++ {
 		h.Steps = append(h.Steps, [2]int{rapid.IntRange(0, nProg-1).Draw(t, "p"), rapid.IntRange(0, nEnv-1).Draw(t, "e")})
+		b := 0
+		if changing && rapid.IntRange(0, 3).Draw(t, "chg") == 0 {
+			b = rapid.SampledFrom([]int{100, 200, 500, 4000, 8000, 1000000}).Draw(t, "newbudget")
+		}
+		h.Budgets = append(h.Budgets, b)
 	}
 	c := pcase("C07", "history")
 	raw, err := json.Marshal(h)
